@@ -829,6 +829,18 @@ func c19Drive(t *fw.T, cs *c19Case, o c19Opened, data []byte, seed int64, script
 			return false
 		}
 	}
+	if m.eof && r.Intn(2) == 0 {
+		// once a read has run past the end Err() is io.EOF and stays it, whatever a later read (which a forward-only
+		// backend cannot serve after a Seek) runs into
+		var err error
+		if !m.call("ReadBytes(1) after the end was passed", func() { m.r.ReadBytes(1); err = m.r.Err() }) {
+			return false
+		}
+		if err != io.EOF {
+			return m.fail("after a read had run past the end and Err() was io.EOF, a further ReadBytes(1) at Pos()=%d changed Err() to %v", m.r.Pos(), err)
+		}
+		m.cnt["err.sticky_after_end"]++
+	}
 	closed = true
 	return m.call("Close", func() { m.r.Close() })
 }
